@@ -50,6 +50,23 @@ def extArrowZst : List Char := ".arrow.zst".toList
 def gcsKey (pfx : List Char) (u : Bytes) (zstd : Bool) : List Char :=
   pfx ++ formatUUID u ++ (if zstd then extArrowZst else extArrow)
 
+/-! ### The entropy source may fail
+
+`draw = none`: the read from the entropy source reported an error. `uuid.New()` panics in that
+case and `crypto/rand.Read` aborts the process, so no object is written: the upload fails. -/
+
+/-- One S3 upload: the key it writes to, or `none` when the upload fails for lack of randomness. -/
+def s3Upload (pfx : List Char) (draw : Option Bytes) : Option (List Char) :=
+  match draw with
+  | some d => some (s3Key pfx d)
+  | none => none
+
+/-- One GCS upload (`uuid.New()` = `Must(NewRandom())`). -/
+def gcsUpload (pfx : List Char) (u : Option Bytes) (zstd : Bool) : Option (List Char) :=
+  match u with
+  | some x => some (gcsKey pfx x zstd)
+  | none => none
+
 /-- Decoder used to state that formatting loses nothing: drop the dashes, read hex pairs. -/
 def unformat (s : List Char) : Option Bytes := bytesOfHexAux (s.filter (· != '-'))
 
